@@ -111,6 +111,8 @@ class Loops:
         if k in ('dictkeys', 'dictitems', 'dictvalues'):
             return i < h.dlen(d.ref)
         if k == 'range':
+            if getattr(d, 'down', False):
+                return d.start + i * d.step > d.stop
             return d.start + i * d.step < d.stop
         if k == 'zip':
             return z3.And([self.cond(ex, x, i) for x in d.parts])
@@ -385,8 +387,34 @@ class Loops:
             ex.exec_block(st.orelse, env)
 
     # -- comprehensions -----------------------------------------------------------------------------------
+    def nested_comp(self, ex, node, env, kind):
+        """[e for x in a for y in b if c] as the loops it abbreviates, filling a new list / dict"""
+        if any(g.is_async for g in node.generators):
+            raise Unsupported('async comprehension')
+        cenv = Env(env)
+        acc = '.acc%d' % node.lineno
+        if kind == 'list':
+            cenv.vars[acc] = L.ListV(ex.new_list(z3.IntVal(0), z3.K(I, L.NoneV)))
+            inner = [ast.Expr(value=ast.Call(func=ast.Attribute(value=ast.Name(id=acc, ctx=ast.Load()), attr='append', ctx=ast.Load()),
+                                            args=[node.elt], keywords=[]))]
+        else:
+            cenv.vars[acc] = L.DictV(ex.new_dict())
+            inner = [ast.Assign(targets=[ast.Subscript(value=ast.Name(id=acc, ctx=ast.Load()), slice=node.key, ctx=ast.Store())],
+                                value=node.value)]
+        for g in reversed(node.generators):
+            for c in reversed(g.ifs):
+                inner = [ast.If(test=c, body=inner, orelse=[])]
+            inner = [ast.For(target=g.target, iter=g.iter, body=inner, orelse=[])]
+        for st in inner:
+            ast.copy_location(st, node)
+            ast.fix_missing_locations(st)
+        ex.exec_block(inner, cenv)
+        return cenv.vars[acc]
+
     def list_comp(self, ex, node, env):
-        if len(node.generators) != 1 or node.generators[0].is_async:
+        if len(node.generators) != 1:
+            return self.nested_comp(ex, node, env, 'list')
+        if node.generators[0].is_async:
             raise Unsupported('nested comprehension')
         gen = node.generators[0]
         key = self.loop_key(ex, node)
@@ -444,7 +472,7 @@ class Loops:
 
     def dict_comp(self, ex, node, env):
         if len(node.generators) != 1:
-            raise Unsupported('nested comprehension')
+            return self.nested_comp(ex, node, env, 'dict')
         gen = node.generators[0]
         key = self.loop_key(ex, node)
         desc = self.describe(ex, ex.eval(gen.iter, env))
